@@ -142,7 +142,7 @@ class Rec:
             tag = len(rec.delivered)
             d = {"tag": tag, "tid": int(request.transaction_id), "uid": int(request.unit_id),
                  "fc": int(request.function_code), "cls": type(request).__name__,
-                 "dest": rec.cur_dest, "results": []}
+                 "dest": rec.cur_dest, "results": [], "write": write_of(request), "escaped": None}
             rec.delivered.append(d)
             real_exec = request.execute
 
@@ -167,6 +167,9 @@ class Rec:
             rec.cur = tag
             try:
                 return real(obj, request, *addr)
+            except Exception as e:  # noqa: BLE001 — observation, re-raised unchanged
+                d["escaped"] = type(e).__name__
+                raise
             finally:
                 rec.cur = prev
         setattr(obj, name, wrapper)
@@ -188,6 +191,21 @@ class Rec:
         self.raw.append((bytes(data), dest))
         if self.sent and self.sent[-1]["dest"] is None and self.sent[-1]["bytes"] == bytes(data):
             self.sent[-1]["dest"] = dest
+
+
+def write_of(request):
+    """(table letter, address, values) for the write requests the harness uses, else None"""
+    cn = type(request).__name__
+    try:
+        if cn == "WriteSingleRegisterRequest":
+            return ("h", int(request.address), [int(request.value)])
+        if cn == "WriteMultipleRegistersRequest":
+            return ("h", int(request.address), [int(v) for v in request.values])
+        if cn == "WriteSingleCoilRequest":
+            return ("c", int(request.address), [1 if request.value else 0])
+    except Exception:  # noqa: BLE001
+        return None
+    return None
 
 
 def addr_of(i):
@@ -395,3 +413,163 @@ def run(frontend, framer, cfg, hosted, reads, direct=False):
         for u, _r in d["results"]:
             rec.logs.setdefault(u, []).append(d["tag"])
     return rec
+
+
+# ----------------------------------------------------------------------------- case generation (shared by C09 / C10)
+
+COMBOS = [(fe, "socket") for fe in FRONTENDS] + [("sync_serial", "rtu"), ("sync_tcp", "rtu"), ("aio_tcp", "rtu"), ("tw_tcp", "rtu")]
+UIDS = [0, 1, 2, 17, 247, 255]
+TIDS = [0, 1, 0x1234, 65535]
+HOSTED = [[1], [1, 2], [0], [0, 1], [1, 2, 247], [17], [247], [2, 1, 17], [255], [0, 247], [1, 255], [3, 2, 1, 0]]
+
+
+def pdu_menu(r, framer):
+    """-> (label, pdu bytes, listen_only)"""
+    a = r.choice([0, 1, NREG - 1, NREG - 1, r.randrange(NREG), 50])
+    v = r.choice([0, 1, 0xFFFF, r.randrange(65536)])
+    k = r.random()
+    if k < 0.30:
+        return "w6", bytes([6]) + struct.pack(">HH", a, v), False
+    if k < 0.42:
+        n = r.choice([1, 2, 3])
+        a2 = r.choice([0, 1, NREG - n, 50])
+        vals = [r.randrange(65536) for _ in range(n)]
+        return "w16", bytes([16]) + struct.pack(">HHB", a2, n, 2 * n) + b"".join(struct.pack(">H", x) for x in vals), False
+    if k < 0.52:
+        return "w5", bytes([5]) + struct.pack(">HH", a, r.choice([0xFF00, 0x0000])), False
+    if k < 0.70:
+        return "r3", bytes([3]) + struct.pack(">HH", a, r.choice([1, 2, NREG])), False
+    if k < 0.76:
+        return "r1", bytes([r.choice([1, 2])]) + struct.pack(">HH", a, 1), False
+    if k < 0.80:
+        return "r4", bytes([4]) + struct.pack(">HH", a, 1), False
+    if k < 0.86:
+        return "echo", bytes([8]) + struct.pack(">HH", 0, v), False
+    if k < 0.93:
+        return "listen", bytes([8]) + struct.pack(">HH", 4, 0), True
+    if k < 0.97 or framer != "socket":
+        return "slaveid", bytes([17]), False
+    return "illegal", bytes([0x55, 1, 2]), False
+
+
+def gen_scenario(r, fe, framer, multi_bias=0.6, max_reqs=6):
+    tw = fe.startswith("tw_")
+    single = r.random() > multi_bias
+    cfg = {"single": single, "bcast": (not tw) and r.random() < 0.5, "ignore": r.random() < 0.5}
+    if single:
+        hosted = [(0, r.choice(["ok"] * 8 + ["raise", "noslave"]))]
+    else:
+        ids = list(r.choice(HOSTED))
+        if r.random() < 0.15:
+            ids = r.sample(range(0, 248), r.choice([1, 2, 4]))
+        hosted = [(u, r.choice(["ok"] * 10 + ["raise", "noslave"])) for u in ids]
+    n = r.choice([1, 1, 2, 3, 4, 5, 6][:max_reqs + 1])
+    reqs = []
+    for _ in range(n):
+        label, pdu, lo = pdu_menu(r, framer)
+        k = r.random()
+        if k < 0.45:
+            uid = r.choice([u for u, _ in hosted])
+        elif k < 0.85:
+            uid = r.choice(UIDS)
+        else:
+            uid = r.randrange(256)
+        tid = r.choice(TIDS + [r.randrange(65536)])
+        reqs.append({"label": label, "pdu": pdu.hex(), "uid": uid, "tid": tid, "listen": lo})
+    mode = r.choice(["one-per-read", "pipelined", "grouped"])
+    groups = []
+    if mode == "one-per-read":
+        groups = [[i] for i in range(n)]
+    elif mode == "pipelined":
+        groups = [list(range(n))]
+    else:
+        cur = []
+        for i in range(n):
+            cur.append(i)
+            if r.random() < 0.5:
+                groups.append(cur)
+                cur = []
+        if cur:
+            groups.append(cur)
+    if fe in DATAGRAM and r.random() < 0.8:
+        groups = [[i] for i in range(n)]
+        mode = "one-per-read"
+    return {"fe": fe, "framer": framer, "cfg": cfg, "hosted": [list(h) for h in hosted], "reqs": reqs,
+            "groups": groups, "mode": mode, "direct": fe == "tw_udp"}
+
+
+def reads_of(sc):
+    fe, fr = sc["fe"], sc["framer"]
+    reads = []
+    for gi, g in enumerate(sc["groups"]):
+        data = b"".join(adu(fr, sc["reqs"][i]["tid"], sc["reqs"][i]["uid"], bytes.fromhex(sc["reqs"][i]["pdu"])) for i in g)
+        reads.append((data, gi + 1) if fe in DATAGRAM else data)
+    return reads
+
+
+def run_scenario(sc):
+    return run(sc["fe"], sc["framer"], sc["cfg"], [tuple(h) for h in sc["hosted"]], reads_of(sc), direct=sc.get("direct", False))
+
+
+def _z(n):
+    n = int(n)
+    return "(%d)" % n if n < 0 else "%d" % n
+
+
+def _optz(v):
+    return "None" if v is None else "(Some %s)" % _z(v)
+
+
+def _b(v):
+    return "true" if v else "false"
+
+
+def _l(items):
+    return "[" + "; ".join(items) + "]"
+
+
+def cfg_term(cfg):
+    return "{| cf_single := %s; cf_bcast := %s; cf_ignore := %s |}" % (_b(cfg["single"]), _b(cfg["bcast"]), _b(cfg["ignore"]))
+
+
+def case_term(sc, rec):
+    reqs = []
+    for d in rec.delivered:
+        res = []
+        for u, rr in d["results"]:
+            if rr[0] == "ok":
+                res.append("(%s, ROk %s %s %s)" % (_z(u), _z(rr[1]), _b(rr[2]), _optz(rr[3])))
+            else:
+                res.append("(%s, RRaise %s)" % (_z(u), rr[1]))
+        reqs.append("{| c_tag := %s; c_tid := %s; c_uid := %s; c_fc := %s; c_dest := %s; c_results := %s |}" % (
+            _z(d["tag"]), _z(d["tid"]), _z(d["uid"]), _z(d["fc"]), _z(d["dest"]), _l(res)))
+    outs = []
+    for s in rec.sent:
+        outs.append("{| oo_for := %s; oo_out := {| o_tid := %s; o_uid := %s; o_fc := %s; o_code := %s; o_dest := %s |} |}" % (
+            _z(-1 if s["for"] is None else s["for"]), _z(s["tid"]), _z(s["uid"]), _z(s["fc"]), _optz(s["code"]),
+            _z(-1 if s["dest"] is None else s["dest"])))
+    hosted = [u for u, _ in rec.units]
+    logs = ["(%s, %s)" % (_z(u), _l(_z(t) for t in rec.logs[u])) for u in hosted]
+    escaped = any(d["escaped"] for d in rec.delivered)
+    return ('{| k_fe := "%s"%%string; k_cfg := %s; k_hosted := %s; k_reqs := %s; k_outs := %s; k_logs := %s; '
+            'k_changed := %s; k_escaped := %s |}') % (
+        sc["fe"], cfg_term(sc["cfg"]), _l(_z(u) for u in hosted), _l(reqs), _l(outs), _l(logs),
+        _l(_z(u) for u in rec.changed), _b(escaped))
+
+
+def observation(rec):
+    """JSON-able summary for samples / replays"""
+    return {"delivered": [{k: (v if k != "results" else [[u, list(x[:4])] for u, x in v]) for k, v in d.items()}
+                          for d in rec.delivered],
+            "sent": [{k: (v.hex() if isinstance(v, bytes) else v) for k, v in s.items()} for s in rec.sent],
+            "logs": {str(u): t for u, t in rec.logs.items()}, "changed": rec.changed, "escaped": rec.escaped}
+
+
+def sanity(rec):
+    """harness-level facts that must hold for the case term to mean what it says"""
+    bad = []
+    if len(rec.raw) != len(rec.sent) or any(s["dest"] is None for s in rec.sent):
+        bad.append("bytes were written that did not come from buildPacket (or a built packet was not written)")
+    if any(u == -1 for d in rec.delivered for u, _ in d["results"]):
+        bad.append("request.execute was called on a context that is not one of the hosted units")
+    return bad
